@@ -138,7 +138,7 @@ CHECKS = {
             'exception kinds incl. hostile __str__/__repr__/__eq__/__hash__, 10 odd return values) over every callback invocation of 14 templates, and every placement of 14 things a callback may DO (evaluate on the same or another parser, subscribe chains of listeners, re-subscribe, unsubscribe, rebind; with a 5 s wall-clock alarm against deadlock) are parsed; the record '
             'must be well-formed and the call must finish within 200 000 interpreter line events. Deep nesting (1 500-3 000 '
             'levels of brackets, calls, host lists) and prefix+unit^N repetition families (under a wall-clock alarm, for '
-            'stalls below the Python level such as regex backtracking) complete the input space.',
+            'stalls below the Python level such as regex backtracking) complete the input space; every documented function x arity 1..3 over a pool of huge numbers (1e9 .. 1e308) and 16 huge integer-power literals run under a 3 s wall-clock alarm and an address-space limit (value-dependent blow-ups execute no Python line).',
             'Trusted: sys.monitoring line/jump events as the measure of "bounded time"; for C-level stalls a 10 s + 40 s '
             'wall-clock alarm (normal parse: 0.1-1 ms). Magnitudes are capped at 1000; self-containing host lists are out of '
             'bound.', 'DESIGN.md §5 C01, §7'),
@@ -154,9 +154,9 @@ CHECKS = {
             'with the same bindings), breadth-first closure of the reachable canonical heap fingerprints (each expansion '
             'replayed in a forked child), repetition ladders for retained traceback/frame objects, and exhaustive '
             'host-value immutability sweeps; ' + K1,
-            'All histories of <= 2/3 operations over a 29-operation alphabet (23 residue-leaving formulas incl. failing '
-            'ones, raising callbacks, reversed ranges and equal-but-differently-typed values; rebinding; listener on/off) '
-            'are replayed in a PRISTINE process (fork server started before anything is evaluated) and followed by 20 '
+            'All histories of <= 2/3 operations over a 35-operation alphabet (28 residue-leaving formulas incl. failing '
+            'ones that read cells first, raising callbacks, reversed ranges and equal-but-differently-typed values; rebinding; listener on/off; the host changing every cell and range value between two evaluations) '
+            'are replayed in a PRISTINE process (fork server started before anything is evaluated) and followed by 23 '
             'probes, each compared with its outcome as the only evaluation of a pristine process, with debug off and on; the '
             'set of heap states reachable by parse operations is searched to a fixpoint (~150 states on the current tree), '
             'which decides the unbounded-repetition clause; every documented function x '
@@ -170,7 +170,7 @@ CHECKS = {
             '3 (two pairs, thorough) over ~150-350 scheduling points is executed on real threads and each outcome compared '
             'with the solo outcome (the two parsers carry DIFFERENT bindings, so an evaluation that reaches the other parser shows); the <= 1 preemption space of 3 pairs is also explored with every execution as the first evaluations of a pristine process (fork server), so that one-time initialisation happens under the scheduler; replaying a prefix must reproduce the recorded points (divergence is a hard error). '
             'Nested evaluation is interposed at every callback invocation, every pair of invocations and all invocations of 10 outer templates for 10 inner formulas on a '
-            'pre-built parser, a parser built in the callback and the same parser (each with bindings of its own), to depth 2; binding histories on parser A are observed from parser B, each history in a pristine process.',
+            'pre-built parser, a parser built in the callback and the same parser (each with bindings of its own) and the same parser with a variable rebound around the nested evaluation, to depth 2; 700 three-cell sheets x 9 formulas whose listeners resolve references by evaluating the referenced cell on the same parser, against bottom-up evaluation; binding histories on parser A are observed from parser B, each history in a pristine process.',
             'Trusted: sys.settrace line events in hotxlfp files + ply lexer entry points as the scheduling points (an update '
             'lost inside one source line is outside the model); the baton scheduler (one semaphore per thread).',
             'DESIGN.md §5 C03'),
@@ -180,7 +180,7 @@ CHECKS = {
             'The conversion has two hard-coded epoch adjustments; only a sweep of all days exposes single-day breaks. Round '
             'trip, strict monotonicity, the Excel-1900 serial from 1 March 1900 on, day offsets and the agreement of '
             'DATEVALUE / N / DAYS / comparisons are checked for every day (thorough) or for the boundary years plus the '
-            'month/year boundaries of every year (quick). Every formula binding a date-time with a time of day is also evaluated with the values delivered by the cell listener (identical outcome demanded), and instants are compared with whole-day plain numbers.',
+            'month/year boundaries of every year (quick). Every formula binding a date-time with a time of day is also evaluated with the values delivered by the cell listener (identical outcome demanded), and instants are compared with whole-day plain numbers; the conversions are repeated with the process in 6 time zones (POSIX TZ strings) on clock-change days and epoch boundaries.',
             'Trusted: datetime.date ordinals as the calendar. Before 1 March 1900 only round trip and monotonicity are '
             'demanded. Millisecond instants are covered on a grid, not exhaustively.', 'DESIGN.md §5 C13'),
     'C14': ('exhaustive calendar sweep of (y,m,d), all 86400 (h,m,s), all ordered date pairs inside boundary windows, all '
@@ -189,7 +189,7 @@ CHECKS = {
             'YEAR/MONTH/DAY/WEEKDAY for every calendar day (thorough), HOUR/MINUTE/SECOND for every time of day, DAYS and '
             'DATEDIF (d, m, y, ym) for every ordered pair inside windows around 1900, 2000, 2100 and for day+delta over '
             'boundary years, EDATE for every offset in the stated range from six starts and small offsets from every day '
-            'of the boundary years. Whole-number arguments spelled as floats must behave as the integer, and all functions of the family are evaluated on shared arguments in one pristine process in both orders, each outcome bit-identical to the same formula as the only evaluation of a pristine process (no state shared between sibling functions).',
+            'of the boundary years; date-time objects handed in by the host for every hour x minute of 3/5 days; the same functions with the process in 6 time zones. Whole-number arguments spelled as floats must behave as the integer, and all functions of the family are evaluated on shared arguments in one pristine process in both orders, each outcome bit-identical to the same formula as the only evaluation of a pristine process (no state shared between sibling functions).',
             'Trusted: datetime.date arithmetic and the stated definitions of whole months/years. DATEDIF md/yd and '
             'text/fractional arguments are not demanded.', 'DESIGN.md §5 C14'),
 }
